@@ -121,6 +121,20 @@ def run_sequences(ctx, binary, seqs, envtok, mk_scenario, name, data_verdicts=No
         sc.items = items
         scs.append(sc); meta.append((items, owner))
     rs = session.run_sessions(ctx, binary, scs)
+    # sessions with a queueing child that dies while a large message is written depend on the scheduler in one
+    # respect (seen once on a loaded machine): a disagreement with the model counts only if it shows again when
+    # the same session is run a second time
+    again_k = [k for k, (s, m, r, (items, owner)) in enumerate(zip(seqs, models, rs, meta))
+               if m is not None and W.compare(m, W.observe(r, items, owner, len(s))[1], r)]
+    if per_seq and again_k:
+        scs2 = []
+        for k in again_k:
+            sc = per_seq[k][1](); sc.items = meta[k][0]
+            scs2.append(sc)
+        for k, r2 in zip(again_k, session.run_sessions(ctx, binary, scs2)):
+            if not W.compare(models[k], W.observe(r2, meta[k][0], meta[k][1], len(seqs[k]))[1], r2):
+                ctx.count('disagreement-not-reproduced'); ctx.notes.append('not reproduced on a second run: ' + ' '.join(seqs[k])[:120])
+                rs[k] = r2
     dis, preds = [], []
     for s, m, r, (items, owner), line in zip(seqs, models, rs, meta, lines):
         case = ' '.join(s)
